@@ -18,6 +18,7 @@ import (
 	"fmt"
 	"strconv"
 	"strings"
+	"sync"
 )
 
 type verifyFunc func(interface{}) error
@@ -64,6 +65,11 @@ var variableVerifyFuncMap = map[string]verifyFunc{
 type SessionVariables struct {
 	variables map[string]*Variable
 	unused    map[string]*Variable
+
+	// acked holds the variables as a backend acknowledged them last, from the first change
+	// made after that acknowledgement until the next one; nil while nothing has changed since.
+	acked     map[string]*Variable
+	ackedLock sync.Mutex
 }
 
 // NewSessionVariables constructor of SessionVariables
@@ -77,11 +83,17 @@ func NewSessionVariables() *SessionVariables {
 // Clone returns a copy that shares no Variable with s.
 func (s *SessionVariables) Clone() *SessionVariables {
 	c := NewSessionVariables()
-	for name, v := range s.variables {
-		c.variables[name] = &Variable{name: v.name, value: v.value, verify: v.verify}
-	}
+	c.variables = cloneVariables(s.variables)
 	for name, v := range s.unused {
 		c.unused[name] = &Variable{name: v.name, value: v.value, verify: v.verify}
+	}
+	return c
+}
+
+func cloneVariables(variables map[string]*Variable) map[string]*Variable {
+	c := make(map[string]*Variable, len(variables))
+	for name, v := range variables {
+		c[name] = &Variable{name: v.name, value: v.value, verify: v.verify}
 	}
 	return c
 }
@@ -126,7 +138,7 @@ func (s *SessionVariables) Equals(dst *SessionVariables) bool {
 func (s *SessionVariables) SetEqualsWith(dst *SessionVariables) ( /*changed*/ bool, error) {
 	if len(s.variables) == 0 && len(dst.variables) != 0 {
 		for _, v := range dst.variables {
-			if err := s.Set(v.Name(), v.Get()); err != nil {
+			if err := s.set(v.Name(), v.Get()); err != nil {
 				return false, err
 			}
 		}
@@ -155,7 +167,7 @@ func (s *SessionVariables) SetEqualsWith(dst *SessionVariables) ( /*changed*/ bo
 			}
 		} else {
 			// 如果源不存在这个变量，则添加
-			if err := s.Set(name, dstVar.Get()); err != nil {
+			if err := s.set(name, dstVar.Get()); err != nil {
 				return false, err
 			}
 			changed = true
@@ -176,11 +188,17 @@ func (s *SessionVariables) SetEqualsWith(dst *SessionVariables) ( /*changed*/ bo
 
 // Delete delete variables with specific key
 func (s *SessionVariables) Delete(key string) {
+	s.keepAcknowledged()
 	delete(s.variables, formatVariableName(key))
 }
 
 // Set store variable in session
 func (s *SessionVariables) Set(key string, value interface{}) error {
+	s.keepAcknowledged()
+	return s.set(key, value)
+}
+
+func (s *SessionVariables) set(key string, value interface{}) error {
 	formatKey := formatVariableName(key)
 	verifyFunc, ok := variableVerifyFuncMap[formatKey]
 	if !ok {
@@ -219,35 +237,34 @@ func (s *SessionVariables) GetUnusedAndClear() map[string]*Variable {
 	return unused
 }
 
-// Reset removes any session variables that are not recognized according to the current verification rules.
-func (s *SessionVariables) Reset(err error) {
-	// Retrieve all current session variables.
-	allVars := s.GetAll()
-	// Iterate through all the variables.
-	for key := range allVars {
-		// Check if there is a verification function for the key in the map.
-		if _, ok := variableVerifyFuncMap[key]; !ok {
-			// If the key is not found in the verification function map, delete it from session variables.
-			s.Delete(key)
-		}
+// keepAcknowledged is called before the session changes a variable: the first change after an
+// acknowledgement puts a copy of the acknowledged variables aside.
+func (s *SessionVariables) keepAcknowledged() {
+	s.ackedLock.Lock()
+	if s.acked == nil {
+		s.acked = cloneVariables(s.variables)
 	}
-	// Check if the error is related to an invalid sql_mode
-	if IsWrongValueForSQLModeErr(err) {
-		// Remove the invalid sql_mode from session variables
-		s.RemoveInvalidSQLMode()
-	}
-
+	s.ackedLock.Unlock()
 }
 
-func (s *SessionVariables) RemoveInvalidSQLMode() {
-	// Check if 'sql_mode' exists in the session variables
-	if _, ok := s.Get("sql_mode"); ok {
-		// Assume the verification function is available in the variableVerifyFuncMap
-		if _, exists := variableVerifyFuncMap["sql_mode"]; exists {
-			// If verification fails, remove 'sql_mode'
-			s.Delete("sql_mode")
-		}
+// Acknowledge notes that a backend has accepted the variables as they are now.
+func (s *SessionVariables) Acknowledge() {
+	s.ackedLock.Lock()
+	s.acked = nil
+	s.ackedLock.Unlock()
+}
+
+// RestoreAcknowledged puts the variables back to what a backend acknowledged last. It is called when a backend has
+// refused the SET statement that carries the session's variables: what the session has set since the last
+// acknowledgement (the refused value is part of it) is given up, so that its next statements are not refused for the
+// same reason, and every variable acknowledged before stays as it was.
+func (s *SessionVariables) RestoreAcknowledged() {
+	s.ackedLock.Lock()
+	if s.acked != nil {
+		s.variables = s.acked
+		s.acked = nil
 	}
+	s.ackedLock.Unlock()
 }
 
 func formatVariableName(name string) string {
